@@ -100,12 +100,14 @@ NormDict(t, v) ==
   IN Sorted(lastIdx)
 
 ---------------------------------------------------------------------------
-OKV(v, pos) == [ok |-> TRUE, v |-> v, pos |-> pos, unk |-> FALSE]
-ErrV == [ok |-> FALSE, v |-> <<>>, pos |-> 0, unk |-> FALSE]
+OKV(v, pos) == [ok |-> TRUE, v |-> v, pos |-> pos, unk |-> FALSE, big |-> FALSE]
+ErrV == [ok |-> FALSE, v |-> <<>>, pos |-> 0, unk |-> FALSE, big |-> FALSE]
+(* rejected because an announced count cannot fit (only the sanity rule refuses it before allocating) *)
+ErrBig == [ok |-> FALSE, v |-> <<>>, pos |-> 0, unk |-> FALSE, big |-> TRUE]
 (* outside the model: an announced count too large to enumerate here while  *)
 (* the sanity rule is off (elements may be zero-sized, so the real reader   *)
 (* may legitimately accept it); the harness does not compare such inputs    *)
-ErrU == [ok |-> FALSE, v |-> <<>>, pos |-> 0, unk |-> TRUE]
+ErrU == [ok |-> FALSE, v |-> <<>>, pos |-> 0, unk |-> TRUE, big |-> TRUE]
 Avail(b, pos) == Len(b) - pos + 1
 
 Dec1Bytes(b, pos, k) == IF Avail(b, pos) < k THEN ErrV ELSE OKV(SubSeq(b, pos, pos + k - 1), pos + k)
@@ -149,7 +151,7 @@ CountVerdict(t, c, b, pos, sanityApplies) ==
   ELSE IF sanityApplies /\ Sanity /\ ElemAtLeast4(t) /\ Avail(b, pos) < 16384 THEN "rej" ELSE "unk"
 DecCounted(t, env, b, pos, c, sanityApplies) ==
   LET cv == CountVerdict(t, c, b, pos, sanityApplies) IN
-  IF cv = "rej" THEN ErrV ELSE IF cv = "unk" THEN ErrU ELSE DecElems1(t, env, b, pos, N4(c), <<>>)
+  IF cv = "rej" THEN ErrBig ELSE IF cv = "unk" THEN ErrU ELSE DecElems1(t, env, b, pos, N4(c), <<>>)
 Dec1(tn, env, b, pos, bare) ==
   LET t == TY(tn) IN
   CASE t.k = "prim" ->
